@@ -277,6 +277,214 @@ def check_C17(tier):
     return rc
 
 
-CHECKS = {"C01": check_C01, "C06": check_C06, "C17": check_C17}
+def adversarial_cases(tier, first_id):
+    """C05: bounds around the machine word in every bound position and nesting, deep nesting, seeded random
+    UTF-8 (DESIGN.md section 8, C05)"""
+    rnd = random.Random(C.SEED)
+    big = ["0", "1", "2", "65535", "65536", "4294967295", "4294967296", "9223372036854775807", "9223372036854775808",
+           "18446744073709551615", "18446744073709551616", "99999999999999999999999"]
+    texts = []
+    bodies = ["a", "ab", "a/", "?", "[a]", "*/", "{a,b}", "a*"]
+    for b in bodies:
+        for x in big:
+            texts.append(("bound", "<%s:%s>" % (b, x)))
+            texts.append(("bound", "<%s:%s,>" % (b, x)))
+            texts.append(("bound", "<%s:0,%s>" % (b, x)))
+            texts.append(("bound", "<%s:%s,%s>" % (b, x, x)))
+            texts.append(("bound", "x<%s:1,%s>y" % (b, x)))
+    for x in big:
+        for y in big:
+            texts.append(("bound2", "<<a:%s>:%s>" % (x, y)))
+            texts.append(("bound2", "<a:%s,%s>" % (x, y)))
+            texts.append(("bound2", "<a:%s><b:%s,>" % (x, y)))
+            texts.append(("bound2", "{<a:%s>,<b/:%s,>}" % (x, y)))
+            texts.append(("bound2", "*<a:0,%s><b:%s,>" % (x, y)))
+    depths = [10, 50, 100, 130, 300, 1000] + ([3000, 20000] if tier == "thorough" else [3000])
+    for n in depths:
+        for o, c_ in (("<", ">"), ("{", "}"), ("<", ":2>"), ("{a,", "}"), ("<a/", ":1,2>"), ("[", "]"), ("(?i", ")")):
+            texts.append(("nest%d" % n, o * n + "a" + c_ * n))
+        texts.append(("nest%d" % n, "a/" * n + "b"))
+        texts.append(("nest%d" % n, "(?i)" * n + "a"))
+        texts.append(("nest%d" % n, "{" * n))
+        texts.append(("nest%d" % n, "<" * n))
+        texts.append(("nest%d" % n, "?" * n))
+        texts.append(("nest%d" % n, "**/" * n))
+        texts.append(("nest%d" % n, "[" + "a" * n + "]"))
+    alphabet = list("?*$:<>()[]{},\\-!/aA.\n") + ["é", "金", "\u0301", "\U0001F600", "\u212a", "ǅ", "\x00", "\x7f"]
+    for _ in range(3000 if tier == "quick" else 30000):
+        n = rnd.randint(1, 12)
+        texts.append(("random", "".join(rnd.choice(alphabet) for _ in range(n))))
+    cases = []
+    for desc, t in texts:
+        cases.append({"id": first_id + len(cases), "kind": "glob", "fam": "adv", "desc": desc, "e": C.cps(t)})
+    return cases
+
+
+def check_C05(tier):
+    t0 = time.time()
+    fams = [("core", 5), ("mini", 6)] if tier == "quick" else L.TIERS_OBS["thorough"]
+    cases = L.family_cases(tier, fams)
+    cases += L.text_cases(tier, len(cases) + 1)
+    cases += adversarial_cases(tier, len(cases) + 1)
+    import hashlib
+    key = hashlib.sha256(json.dumps(cases, separators=(",", ":")).encode()).hexdigest()[:12]
+    d = C.cache_dir("obs", "%s-%s" % (C.repo_hash(), C.harness_hash()))
+    os.utime(d)
+    path = os.path.join(d, "total-%s-%s.ndjson" % (tier, key))
+    if not os.path.exists(path):
+        cpath = path + ".cases"
+        L.write_ndjson(cpath, cases)
+        t1 = time.time()
+        C.run_wv(["total", "--threads", str(max(2, C.WORKERS)), "--timeout", "60"], stdin_path=cpath, stdout_path=path + ".tmp", timeout=7000)
+        os.replace(path + ".tmp", path)
+        os.remove(cpath)
+        C.log("[total] %d inputs, every public operation, in child processes (%.1fs)" % (len(cases), time.time() - t1))
+    obs = L.read_ndjson(path)
+    by_id = {o["id"]: o for o in obs}
+    v = C.Verdict("C05")
+
+    def describe(r, o):
+        x = r.get("x", {})
+        e = L.expr_of(o) if o["elen"] <= 64 else "<%s, %d characters>" % (o.get("desc"), o["elen"])
+        return "%r: %s %s" % (e, r["what"], json.dumps(x))
+
+    # the record that TLC attributes carries a site without its line number (line numbers move)
+    out, stats = C.tlc("ObsCheck.tla", "ObsCheck_C05.cfg", env={"OBS": path, "PROP": "C05"}, timeout=3000, java_opts=["-Xmx12g"])
+    if not stats["ok"]:
+        C.log(stats.get("tail", ""))
+        raise C.ToolError("TLC did not complete on ObsCheck_C05")
+    n = 0
+    for r in C.tlc_records(out):
+        if r["t"] != "DISAGREE":
+            continue
+        n += 1
+        site = r.get("x", {}).get("site", "")
+        import re as _re
+        r["x"]["site_key"] = _re.sub(r":\d+ ", " ", site)
+        o = by_id[r["id"]]
+        r["x"]["desc"] = o.get("desc", o.get("fam"))
+        r["x"]["outcome"] = o["outcome"]
+        v.disagree(r, describe(r, o))
+    outcomes = collections.Counter(o["outcome"] for o in obs)
+    samples = [{"input": L.expr_of(o) if o["elen"] <= 64 else o.get("desc"), "outcome": o["outcome"], "error": o["ekind"]} for o in sample_cases(obs, 6, lambda o: o.get("fam") == "adv")]
+    rc = v.finish()
+    C.write_evidence("C05", tier, "exploration", {
+        "evaluations": len(obs), "distinct_nontrivial": len({tuple(o["e"]) for o in obs if o["elen"] <= 64 and o["outcome"] != "parse"}) + sum(1 for o in obs if o["elen"] > 64),
+        "rule": "inputs = every string up to %d characters over 21 symbols (all meta-characters, contextual ones, separator, letters), lexeme families %s, bounds around 2^16/2^32/2^63/2^64 in every bound position and nesting, nesting depths up to %d, seeded random UTF-8; each input in a child process; every public operation on the result; non-trivial = gets past the parser (or is a long adversarial input)" % (3 if tier == "quick" else 4, fams, max(depths_of(tier))),
+        "samples": samples,
+        "outcomes": dict(outcomes),
+        "states": stats["distinct"], "transitions": stats["generated"],
+        "operations": ["Glob::new", "depth/text/has_root/is_exhaustive", "captures/has_semantic_literals/is_empty/Display", "is_match/matched/get/to_owned/into_owned on 10 paths", "clone/into_owned", "partition/partition_or_empty/partition_or_tree", "any (text, compiled, nested)", "not() programs / walk component programs", "FromStr/TryFrom", "escape + rebuild", "BuildError::locations + slicing the expression by each span"],
+        "disagreements": n, "known_findings_hit": sorted(v.findings),
+    }, time.time() - t0, len(v.violations), ["outcome classes are validated by TLC (ObsCheck!Total); totality itself is explored, not proved", "a worker that dies or exceeds 60 s is an abort/timeout of that input"])
+    return rc
+
+
+def check_C07(tier):
+    t0 = time.time()
+    fams = [("core", 5), ("mini", 6)] if tier == "quick" else [("core", 6), ("mini", 7), ("case", 4)]
+    base = L.family_cases(tier, fams)
+    fam_of = {tuple(c["e"]): c["fam"] for c in base}
+    with_branch = [c for c in base if 123 in c["e"] or 60 in c["e"]]
+    rels = L.gen_relations(with_branch, tier)
+    rnd = random.Random(C.SEED)
+    if tier == "quick":
+        rels = [r for r in rels if r["law"] in ("alt", "rep") or rnd.random() < 0.25]
+    # every text involved becomes a case; then the any-combinations with their members
+    texts = set()
+    for r in rels:
+        fam = fam_of[tuple(r["orig"])]
+        r["fam"] = fam
+        for t in [r["orig"]] + r["members"]:
+            texts.add((tuple(t), fam))
+    cases = []
+    ident = {}
+    for t, fam in sorted(texts):
+        ident[(t, fam)] = len(cases) + 1
+        cases.append({"id": len(cases) + 1, "kind": "glob", "fam": fam, "e": list(t), "sigma": L.SIGMA[fam]})
+    anys = L.any_cases(tier, len(cases) + 1)
+    allc = cases + anys
+    # member globs of the any-cases, observed over the any alphabet
+    any_ident = {}
+    for a in anys:
+        for m in a["members"]:
+            if tuple(m) not in any_ident:
+                any_ident[tuple(m)] = len(allc) + 1
+                allc.append({"id": len(allc) + 1, "kind": "glob", "fam": "anymember", "e": list(m), "sigma": L.ANY_SIGMA})
+    obs_path = L.observe(allc, "dfa", "rel-" + tier)
+    obs = L.read_ndjson(obs_path)
+    by_id = {o["id"]: o for o in obs}
+
+    def usable(i):
+        o = by_id[i]
+        return o["outcome"] == "ok" and o["dfa"]["ok"]
+    recs = []
+    skipped = 0
+    for r in rels:
+        o = ident[(tuple(r["orig"]), r["fam"])]
+        ms = [ident[(tuple(m), r["fam"])] for m in r["members"]]
+        if r["mode"] == "sub":
+            ms = [m for m in ms if usable(m)]
+        if not usable(o) or not ms or not all(usable(m) for m in ms):
+            skipped += 1
+            continue
+        recs.append({"law": r["law"], "mode": r["mode"], "zt": r["zt"], "tr": r["tr"], "orig": o, "members": ms})
+    for a in anys:
+        ms = [any_ident[tuple(m)] for m in a["members"]]
+        if usable(a["id"]) and all(usable(m) for m in ms):
+            recs.append({"law": "any-" + a["mode"], "mode": "eq", "zt": False, "tr": False, "orig": a["id"], "members": ms})
+    d = os.path.dirname(obs_path)
+    rel_path = os.path.join(d, "rel-%s.rel" % tier)
+    L.write_ndjson(rel_path, recs)
+    out, stats = C.tlc("UnionCheck.tla", "UnionCheck.cfg", env={"OBS": obs_path, "REL": rel_path}, timeout=3000, java_opts=["-Xmx12g"])
+    if not stats["ok"]:
+        C.log(stats.get("tail", ""))
+        raise C.ToolError("TLC did not complete on UnionCheck")
+    v = C.Verdict("C07")
+    n = 0
+    witness = {}
+    for r in C.tlc_records(out):
+        if r["t"] != "DISAGREE":
+            continue
+        n += 1
+        rel = recs[r["rel"] - 1]
+        r["law"] = rel["law"]
+        r["mode"] = rel["mode"]
+        r["zt"] = rel["zt"]
+        r["tr"] = rel["tr"]
+        v.disagree(r, "%s law: %r vs %s on path %r: %s" % (rel["law"], L.expr_of(by_id[rel["orig"]]),
+                                                       [L.expr_of(by_id[m]) for m in rel["members"]], C.text(r["path"]), r["what"]))
+        witness.setdefault(r["rel"], r)
+    # bind the tables to the real engine on the witnesses of disagreements and on seeded samples
+    n_replayed = 0
+    ws = []
+    for k, r in witness.items():
+        rel = recs[k - 1]
+        for i in [rel["orig"]] + rel["members"]:
+            ws.append({"id": i, "path": r["path"]})
+    if ws:
+        n_replayed += replay_paths(by_id, ws)
+    n_replayed += replay_table_sample(by_id, [r["orig"] for r in recs], "C07", per_case=2, max_cases=2000)
+    laws = collections.Counter(r["law"] for r in recs)
+    samples = [{"law": r["law"], "mode": r["mode"], "original": L.expr_of(by_id[r["orig"]]), "members": [L.expr_of(by_id[m]) for m in r["members"]]}
+               for r in random.Random(C.SEED).sample(recs, min(6, len(recs)))]
+    rc = v.finish()
+    C.write_evidence("C07", tier, "model_checking", {
+        "states": stats["distinct"], "transitions": stats["generated"],
+        "traces_validated_against_impl": n_replayed,
+        "samples": samples,
+        "evaluations": len(recs), "distinct_nontrivial": sum(1 for r in recs if r["law"] in ("alt", "rep") or r["law"].startswith("any")),
+        "rule": "law instances derived by TLC (spec/GenRel.tla) on the token trees of every expression with a branch in the families %s, at every position and depth, kept when all derived trees print to text that reads back to the same tree and all expressions build; plus any-combinations (text, compiled, nested) against their members; non-trivial = alternation/repetition/any laws (wrapping laws are sampled in the quick tier)" % (fams,),
+        "laws": dict(laws), "relations_skipped_not_all_buildable": skipped,
+        "disagreements": n, "known_findings_hit": sorted(v.findings), "exhaustive": True,
+    }, time.time() - t0, len(v.violations), TRUSTED_LANG)
+    return rc
+
+
+def depths_of(tier):
+    return [10, 50, 100, 130, 300, 1000, 3000] + ([20000] if tier == "thorough" else [])
+
+
+CHECKS = {"C01": check_C01, "C05": check_C05, "C06": check_C06, "C07": check_C07, "C17": check_C17}
 for _p in QUERY:
     CHECKS[_p] = (lambda p: (lambda tier: query_check(p, tier)))(_p)
